@@ -166,6 +166,9 @@ func Concretize(x, lo, hi int) int { return x }
 // Thorough reports whether the thorough tier is running (harnesses use it to pick larger bounds).
 func Thorough() bool { return os.Getenv("VERIF_TIER") == "thorough" }
 
+// Native is true only in the natively compiled replay: for environment set-up that the symbolic side stubs out.
+func Native() bool { return true }
+
 func Unroll(n int)                 {}
 func Note(s string)                {}
 func Config(key, val string)       {}
